@@ -54,6 +54,11 @@ func VerifyEventAuthChain(ctx context.Context, eventToVerify PDU, provideEvents 
 				eventsByID[newEvents[i].EventID()] = newEvents[i] // add to lookup table
 			}
 			eventsToVerify = append(eventsToVerify, newEvents...) // verify these events too
+			for _, needEventID := range need {
+				if eventsByID[needEventID] == nil {
+					return fmt.Errorf("gomatrixserverlib: VerifyEventAuthChain failed to obtain auth event %v of %v", needEventID, curr.EventID())
+				}
+			}
 		}
 		// verify the event
 		if err := checkAllowedByAuthEvents(curr, eventsByID, provideEvents, userIDForSender); err != nil {
